@@ -27,6 +27,17 @@ CHECKS = {
         design_ref='DESIGN.md section 9 C16',
         note=BASE_NOTE + 'CPython repr(float), float(str), round(x, n) are external contracts, not modelled.',
         technique='Lean 4 theorems over an executable model + model/implementation correspondence'),
+    'C15': dict(
+        category='proof',
+        text='Theorems over Model/Data.lean for ALL texts, layouts and READ/RESTORE sequences: tokeniser laws (comma '
+             'splitting, trimming, quoted verbatim via a render/parse round trip), source order of the data section for '
+             'any placement of DATA and distinct labels, the READ cursor delivers flatten(parts) and fails past the end, '
+             'RESTORE <label> targets the first DATA at or after the label; RESTORE without label: full statement, '
+             'machine-checked counterexample (part index -1) and the partial theorem. Model tied to parse_data '
+             '(exhaustive to length 6/8), the grammar rule, the grouping, get_data_label_index and DataDevice.',
+        design_ref='DESIGN.md section 9 C15',
+        note=BASE_NOTE + 'pyparsing tokenisation of the DATA statement and Python float() are not modelled.',
+        technique='Lean 4 theorems over an executable model + model/implementation correspondence'),
 }
 
 PENDING = ('not yet decided by the Lean framework in this commit; design in DESIGN.md section 9, implementation order in '
